@@ -57,13 +57,18 @@ def gen(seed, tier, focus):
 
 
 def exhaustive_2w1r():
-    """every schedule of 2 waiters (all 15 unordered kind pairs) x 1 resolver (each of the 6 explicit kinds, or none =
+    """every schedule of 2 waiters (all 21 unordered kind pairs of 6 kinds) x 1 resolver (each of 7 explicit kinds, or none =
     the destructor of the shared promise resolves), enumerated by the extracted model itself (CellDefs.cell_enum)"""
     cfgs = []
-    for r in [None, (0, 5), (1, 6), (2, 0), (3, 0), (4, 7), (5, 8), (6, 0), (7, 9)]:
+    # all 21 waiter kind pairs for: no resolver (the destructor resolves), value, async completion, co_await promise(v);
+    # exception / drop / move-then-destroy / async-by-exception have the step structure of one of those: 6 mixed pairs each
+    some = [(0, 1), (1, 2), (2, 3), (3, 4), (4, 5), (0, 5)]
+    for r in [None, (0, 5), (4, 7), (7, 9), (1, 6), (2, 0), (3, 0), (5, 8)]:
+        full = r is None or r[0] in (0, 4, 7)
         for w1 in range(6):
             for w2 in range(w1, 6):
-                cfgs.append((([r] if r else []), [w1, w2]))
+                if full or (w1, w2) in some:
+                    cfgs.append((([r] if r else []), [w1, w2]))
     enum = [Case("cell_enum", "e%d" % i, [[1, k, d] for (k, d) in res] + [[2, k] for k in wai])
             for i, (res, wai) in enumerate(cfgs)]
     fd, path = tempfile.mkstemp(prefix="cell_enum.", dir="/var/tmp"); os.close(fd)
